@@ -61,7 +61,9 @@ def failed_dump(sym, fmt, position, attr, rule, maxlen, k, preexisting, any_valu
         sym.check("no-file-created", after is None)
 
 
-BAD_NAMES = {"int": 7, "none": None, "bytes": b"vmlinuz", "tuple": ("a", "b"), "float": 1.5, "bool": True}
+BAD_NAMES = {"int": 7, "none": None, "bytes": b"vmlinuz", "tuple": ("a", "b"), "float": 1.5, "bool": True,
+             # not bad at all: a second name that differs from an existing one only in letter case (option names are case sensitive here)
+             "case-twin": "KERNEL"}
 
 
 def tree_table_names(sym, table, kind, preexisting):
@@ -74,6 +76,10 @@ def tree_table_names(sym, table, kind, preexisting):
         ti.dump(path)
     before = read_bytes(path)
     bad = BAD_NAMES[kind]
+    if kind == "case-twin":
+        ti.images.images[ti.tree.arch]["kernel"] = "images/pxeboot/vmlinuz"
+        ti.images.images["xen"]["kernel"] = "images/pxeboot/vmlinuz-xen"
+        ti.checksums.checksums["kernel"] = ["sha256", "b" * 64]
     if table == "images":
         ti.images.images[ti.tree.arch][bad] = "images/x"
     elif table == "images-xen":
@@ -84,9 +90,10 @@ def tree_table_names(sym, table, kind, preexisting):
     try:
         ti.dump(path)
         raised = False
-    except (ValueError, TypeError, AttributeError):
+    except Exception:          # whoever refuses it, with whatever exception
         raised = True
     if not raised:
+        sym.cover("written")
         return
     sym.cover("dump-failed")
     after = read_bytes(path)
